@@ -2,5 +2,9 @@ CHECKS = {
  'C01': {'text': 'Generated search: thousands (quick) to >100k (thorough) reference-built messages over all operators, replication shapes, editions and compression, plus the sample corpus, each decoded by pybufrkit and compared value-by-value and label-by-label with an independent FM-94 reference model. Bounded random exploration, not a proof.',
          'note': 'Trusts refbufr (independent reference walker, shares only the table JSON files); float compare within 4 ulp; spec-ambiguous constructs (DESIGN 10-2) not generated.',
          'technique': 'property-based testing (Hypothesis) against an independent reference decoder; corpus differential'},
+
+ 'C19': {'text': 'Complete enumeration of width 1..64 x boundary values x bit offset 0..7 for unsigned / sign-magnitude / in-place overwrite / non-fitting values / reads past the end (about 15k cells, exhaustive for that space), plus thousands of random typed field sequences against a str-of-bits model.',
+         'note': 'Model of the stream is a Python str of bits; signed widths 2..64 (a sign-magnitude field needs a magnitude bit).',
+         'technique': 'exhaustive small-scope enumeration + property-based sequences (Hypothesis) against a bit-string model'},
 }
 NOT_YET = {}
